@@ -734,6 +734,11 @@ def _next_candidate(c, z):
         return v
 
 
+import numbers as _numbers
+_numbers.Number.register(SNum)      # `isinstance(x, numbers.Number)` in the code under test must accept proxies
+_numbers.Number.register(SBool)
+
+
 # --------------------------------------------------------------------------- uninterpreted functions
 
 _UF = {}
